@@ -144,8 +144,9 @@ static void drv_aborted(void);
 static void drv_header(jb_t *b);
 
 /* the private pointer handed to every library call that takes one; callbacks verify they get it back */
-static int e_priv_token;
-#define E_PRIV ((void *)&e_priv_token)
+static int e_priv_token[2];
+#define E_PRIV ((void *)&e_priv_token[0])
+#define E_PRIV2 ((void *)&e_priv_token[1])     /* the token a differently configured second object is registered with */
 static const char *e_forced_outcome;
 /* What a comparison callback returns.  The library may rely on the sign only, so the magnitude is made
  * uninformative on purpose, by a rule that is a pure function of the pair (deterministic under re-execution
@@ -164,6 +165,7 @@ static int e_cmp3(long a, long b)
  * and be handed back unchanged, so sign and size vary with k (the models: StopVal) */
 static int e_stopval(int k) { return k % 3 == 1 ? 100 + k : k % 3 == 2 ? -(100 + k) : (k % 2 ? 1 : -1); }
 static void e_check_priv(const void *p) { if (p != E_PRIV) { e_forced_outcome = "badpriv"; } }
+static void e_check_priv2(const void *p) { if (p != E_PRIV2) { e_forced_outcome = "badpriv"; } }
 
 /* ---------------------------------------------------------------- crash capture */
 static sigjmp_buf e_jmp;
